@@ -92,13 +92,21 @@ TrClear == /\ IsEvent("clear") /\ Ev.err = ""
 NeedOf(j) == IF j.k = "full" THEN [k |-> "full", lo |-> j.lo, hi |-> j.hi] ELSE [k |-> "partial", v |-> j.v, seqs |-> RunsToSet(j.seqs)]
 TrServe == /\ IsEvent("serve")
            /\ LET need == NeedOf(Ev.op.need) a == Ev.op.need.a s == Ev.n c == Ev.op.c IN
-              /\ need \in AllNeeds(c, s, a)                                    \* C04 in context
+              /\ (Ev.op.probe \/ need \in AllNeeds(c, s, a))                  \* C04 in context (probes: any need within the head)
+              /\ (Ev.op.probe => need \in ProbeNeeds(s, a))
               /\ CreatedSet(Ev) = ServeF(nodes[s], a, need)                      \* C05: exactly what the server may send
               /\ msgs' = msgs \cup ServeF(nodes[s], a, need)
            /\ UNCHANGED <<txlog, nodes>>
            /\ \A i \in 1..Len(Ev.created) : PayloadOk(Ev.created[i])
            /\ net' = NetPlus(Ev)
            /\ NodeMatches(nodes[Ev.n], Ev.n, Ev.post)
+(* read-only probe: any need within the server's advertised head; nothing enters the network (C05) *)
+TrProbe == /\ IsEvent("probe")
+           /\ LET need == NeedOf(Ev.op.need) a == Ev.op.need.a s == Ev.n IN
+              /\ need \in ProbeNeeds(s, a)
+              /\ CreatedSet(Ev) = ServeF(nodes[s], a, need)
+           /\ UNCHANGED <<txlog, nodes, msgs, net>>
+           /\ \A i \in 1..Len(Ev.created) : PayloadOk(Ev.created[i])
 TrRestart == /\ IsEvent("restart")
              /\ nodes' = [nodes EXCEPT ![Ev.n] = SettleF(RestartF(@, Ev.n))]
              /\ NodeMatches(nodes'[Ev.n], Ev.n, Ev.post)
@@ -108,7 +116,7 @@ TrFinal == /\ IsEvent("final")
            /\ (Ev.quiescent => Quiescent)
            /\ UNCHANGED <<txlog, nodes, msgs, net>>
 
-TraceNext == TrTxOk \/ TrTxNoEffect \/ TrCut \/ TrDeliver \/ TrApply \/ TrClear \/ TrServe \/ TrRestart \/ TrFinal
+TraceNext == TrTxOk \/ TrTxNoEffect \/ TrCut \/ TrDeliver \/ TrApply \/ TrClear \/ TrServe \/ TrProbe \/ TrRestart \/ TrFinal
 TraceSpec == TraceInit /\ [][TraceNext]_tvars
 
 TraceAccepted ==
